@@ -14,7 +14,9 @@ GSpec == GInit /\ [][GNext]_gvars
 Terminal == Len(w.stack) = 0 /\ w.step >= 1 /\
             (w.step >= MaxSteps \/ (StepKinds \subseteq {"ops", "frame", "direct"} /\ w.budget = 0 /\ FinalStep = ""))
 
-Emitted == Terminal => PrintT(<<"REPLAY", ToJson(hist)>>)
+SEG == INSTANCE SequencesExt
+(* the behaviour and the monitors' verdict on it: a recorded execution that equals `hist` record for record has this verdict *)
+Emitted == Terminal => PrintT(<<"REPLAY", ToJson([hist |-> hist, viol |-> SEG!SetToSeq(m.viol)])>>)
 
 (* hide the history from the fingerprint when only distinct model states matter *)
 GView == <<w, out, m>>
